@@ -187,6 +187,7 @@ class Index:
         self.zero_width_guards = canon.drop_zero_width_guards(self)
         self.counters = canon.desugar_counters(self)
         self.fused = canon.fuse_record_lists(self)
+        self.temporaries = canon.inline_single_use_temporaries(self)
         self.positional = canon.positional_calls(self)
         self.aliased = canon.attach_aliased_methods(self)
         self.renamed = canon.apply(self, canon.discover(self))
